@@ -19,7 +19,7 @@ const A_EW: &[&str] = &[
 ];
 
 fn ew_summary(rule: &str, bounds: serde_json::Value) -> Summary {
-    Summary { rule: rule.to_string(), bounds, assumptions: A_EW.iter().map(|s| s.to_string()).collect(), witness_names: EW_WITNESSES.to_vec(), extra: json!({}), exhaustive: true }
+    Summary { rule: rule.to_string(), bounds, assumptions: A_EW.iter().map(|s| s.to_string()).collect(), witness_names: ew_witness_names(), extra: json!({}), exhaustive: true }
 }
 
 fn sc(tag: &str, cfg: &EwCfg, script: Vec<EwOp>, env: EwEnv, d: usize, oracles: u32) -> EwSpec {
@@ -59,8 +59,8 @@ pub fn echo_script(i: usize) -> Vec<EwOp> {
 // ------------------------------------------------------------------------------------------------
 pub fn c08_specs(quick: bool) -> Vec<EwSpec> {
     let mut scs: Vec<EwSpec> = Vec::new();
-    let d = if quick { 2 } else { 3 };
-    let menu = |i: usize| vec![Act::CSend(i, 1, SendMode::Unreliable, 20), Act::CDisconnect(i), Act::CDisconnectNow(i), Act::SSend(i, 1, SendMode::Reliable, 2000), Act::SDisconnect(i), Act::SDisconnectNow(i), Act::SDrop(i), Act::Connect(i), Act::Forget(i)];
+    let d = 3; let _ = quick;
+    let menu = |i: usize| vec![Act::CSend(i, 1, SendMode::Unreliable, 20), Act::CDisconnect(i), Act::CDisconnectNow(i), Act::SSend(i, 1, SendMode::Reliable, 2000), Act::SDisconnect(i), Act::SDisconnectNow(i), Act::SDrop(i), Act::Connect(i), Act::Forget(i), Act::CFlush(i), Act::SFlush];
     let timeouts: &[u64] = if quick { &[3000] } else { &[3000, 20_000] };
     for &t in timeouts {
         let mut cfg = EwCfg::new(1);
@@ -99,12 +99,12 @@ pub fn c08_specs(quick: bool) -> Vec<EwSpec> {
 }
 
 pub fn c08(quick: bool) -> PropRun {
-    let d = if quick { 2 } else { 3 };
+    let d = 3;
     let timeouts: &[u64] = if quick { &[3000] } else { &[3000, 20_000] };
     let scs = assemble(c08_specs(quick), vec![], quick, "C08", EO_C08);
     PropRun { level: "model_checking", scenarios: scs, units: vec![], replay_case: None, summary: ew_summary(
         "every explored execution's event streams (client: per Client object; server: per address, with Server::drop as a silent end) are run through the reference automaton Connect? Receive* (Disconnect|Error)?",
-        json!({"d": d, "application_menu": "send / disconnect / disconnect_now / drop / reconnect from the same address / forget, on either side, at every round of the window", "fates": "deliver/drop/dup/hold2/stale copy 10 rounds later on every datagram", "deltas_ms": [100, 0, 2000, 20000], "active_timeouts_ms": timeouts})) }
+        json!({"d": d, "application_menu": "send / disconnect / disconnect_now / drop / reconnect from the same address / forget / flush, on either side, at every round of the window", "fates": "deliver/drop/dup/hold2/stale copy 10 rounds later on every datagram", "deltas_ms": [100, 0, 2000, 20000], "active_timeouts_ms": timeouts})) }
 }
 
 // ------------------------------------------------------------------------------------------------
@@ -123,10 +123,10 @@ pub fn c07_parts(quick: bool) -> (Vec<EwSpec>, Vec<Scenario>) {
         // d-bounded over everything (handshake and later frames), with stale copies landing in the second connection
         let mut env2 = EwEnv::basic(if quick { 5 } else { 8 }, 120);
         env2.fates = DF_ALL; env2.deltas = &[100, 2000]; env2.fair_delta = 500; env2.long_hold = 20;
-        scs.push(sc("C07.reconnect", &cfg, reconnect.clone(), env2, if quick { 2 } else { 3 }, o & !EO_ECHO));
+        scs.push(sc("C07.reconnect", &cfg, reconnect.clone(), env2, 3, o & !EO_ECHO));
         let mut env3 = EwEnv::basic(if quick { 5 } else { 8 }, 80);
         env3.fates = DF_BASIC; env3.fate_types = &[0, 1, 2, 3]; env3.deltas = &[100, 2000];
-        scs.push(sc("C07.echo", &cfg, echo_script(0), env3, if quick { 2 } else { 3 }, o));
+        scs.push(sc("C07.echo", &cfg, echo_script(0), env3, 3, o));
     }
     // (b) two simultaneous handshakes
     {
@@ -134,7 +134,7 @@ pub fn c07_parts(quick: bool) -> (Vec<EwSpec>, Vec<Scenario>) {
         let mut script = echo_script(0); script.extend(vec![at(0, Act::Connect(1)), after_c(1, 1, Act::CSend(1, 0, SendMode::Reliable, 100)), after_s(1, 1, Act::SSend(1, 0, SendMode::Reliable, 60))]);
         let mut env = EwEnv::basic(if quick { 4 } else { 6 }, 80);
         env.fates = DF_BASIC; env.fate_types = &[0, 1, 2, 3]; env.deltas = &[100, 2000];
-        scs.push(sc("C07.two-clients", &cfg, script, env, if quick { 2 } else { 3 }, o));
+        scs.push(sc("C07.two-clients", &cfg, script, env, 3, o));
     }
     // (c) configuration pairs
     let pairs: Vec<(&str, usize, usize, usize, usize)> = vec![ // (name, client max_packet, client alloc, server max_packet, server alloc)
@@ -177,7 +177,7 @@ pub fn c07(quick: bool) -> PropRun {
     let scs = assemble(own, custom, quick, "C07", EO_C07 | EO_C08);
     PropRun { level: "model_checking", scenarios: scs, units: vec![], replay_case: None, summary: ew_summary(
         "handshake ledger over every explored execution: Connect only after the matching nonce was delivered, one Connect per handshake, first data frames start at the exchanged nonces and the echo completes, incompatible configurations are refused with Error(Config); forged handshake frames are checked differentially against the same run without the forgery",
-        json!({"handshake_fates": "complete enumeration over SYN/SYN-ACK/ACK/error datagrams (deliver/drop/dup/hold/stale copy)", "d_other": if quick { 2 } else { 3 }, "forced_nonces": ["seeded", "2^32-2, 2^32-1, 0, 2^32-1", "equal nonces on both sides"], "forged_alphabet": "SYN other nonce / other version, ACK wrong nonce, SYN-ACK, error frames of all three kinds from the client's address; SYN-ACK with wrong nonce_ack, error frames with wrong nonce_ack, SYN, ACK from the server's address; at every round"})) }
+        json!({"handshake_fates": "complete enumeration over SYN/SYN-ACK/ACK/error datagrams (deliver/drop/dup/hold/stale copy)", "d_other": 3, "forced_nonces": ["seeded", "2^32-2, 2^32-1, 0, 2^32-1", "equal nonces on both sides"], "forged_alphabet": "SYN other nonce / other version, ACK wrong nonce, SYN-ACK, error frames of all three kinds from the client's address; SYN-ACK with wrong nonce_ack, error frames with wrong nonce_ack, SYN, ACK from the server's address; at every round"})) }
 }
 
 fn forged_alphabet() -> Vec<(&'static str, bool, Vec<u8>)> {
@@ -241,7 +241,7 @@ fn forger_scenario(tag: &str, cfg: EwCfg, script: Vec<EwOp>, env: EwEnv, window:
                 if !only_reack { violations.push(crate::lw::viol("C07.forged", "C07.forged:reply".into(), format!("{} changed the number of datagrams sent by the endpoints by {} (datagrams around that round: {:?})", what, extra, kinds))); }
             }
         }
-        ExecResult { violations, panic: None, outcome: ew_outcome(&tr) ^ (r as u64) << 8 ^ k as u64, states: ew_states(&tr), transitions: tr.obs.len() as u64 * 2, witnesses: ew_witnesses(&tr),
+        ExecResult { violations, panic: None, outcome: ew_outcome(&tr) ^ (r as u64) << 8 ^ k as u64, states: ew_states(&tr), transitions: tr.obs.len() as u64 * 2, witnesses: ew_witnesses(&tr) << 32,
                      sample: if r == 3 && k < 3 { Some(format!("{} -> no visible effect", what)) } else { None } }
     };
     Scenario { name, d: 0, run: Box::new(run) }
@@ -263,7 +263,7 @@ pub fn c17_parts(quick: bool) -> (Vec<EwSpec>, Vec<Scenario>) {
             let mut env = EwEnv::basic(if nc <= 3 { 4 } else { 4 }, 60);
             env.fates = &[DFate::Deliver, DFate::Hold2, DFate::Drop, DFate::Dup, DFate::HoldLong]; env.fate_types = &[0, 1, 2]; env.deltas = &[100]; env.fair_delta = 500; env.long_hold = 6;
             env.fates_free = nc <= 2 || (!quick && nc <= 3);
-            let d = if env.fates_free { 0 } else if quick { 2 } else { 3 };
+            let d = if env.fates_free { 0 } else { 3 };
             scs.push(sc("C17.overlap", &cfg, script.clone(), env, d, EO_C17 | EO_C08));
             // connections ending in between (disconnect by client, by server, drop, time-out of a vanished client), then a late-comer must be admitted
             for (ename, endings) in [("client-disconnect", vec![after_c(0, 3, Act::CDisconnectNow(0))]), ("server-disconnect", vec![after_s(0, 3, Act::SDisconnectNow(0))]),
@@ -499,7 +499,7 @@ fn leak_deltas(cad: u64, extra: &[u64]) -> &'static [u64] {
 pub fn c09_parts(quick: bool) -> (Vec<EwSpec>, Vec<Scenario>) {
     let mut custom: Vec<Scenario> = Vec::new();
     let mut scs: Vec<EwSpec> = Vec::new();
-    let d = if quick { 2 } else { 3 };
+    let d = 3;
     use SendMode::*;
     let loads: Vec<(&str, Vec<(u8, SendMode, usize)>)> = vec![
         ("none", vec![]), ("one", vec![(0, Reliable, 100)]), ("empty-marker", vec![(0, Reliable, 0)]), ("data-then-empty-marker", vec![(0, Reliable, 700), (1, Unreliable, 0), (0, Reliable, 0)]), ("three-mixed", vec![(0, Reliable, 3000), (1, Unreliable, 50), (0, Reliable, 20)]),
@@ -545,7 +545,7 @@ pub fn c09_specs(quick: bool) -> Vec<EwSpec> { c09_parts(quick).0 }
 pub fn c09(quick: bool) -> PropRun {
     let (own, custom) = c09_parts(quick);
     let scs = assemble(own, custom, quick, "C09", EO_C09 | EO_C08);
-    let d = if quick { 2 } else { 3 };
+    let d = 3;
     PropRun { level: "model_checking", scenarios: scs, units: vec![], replay_case: None, summary: ew_summary(
         "every explored execution: Reliable packets submitted before disconnect() are delivered to the peer before its Disconnect event (unless the peer disconnects itself); once a disconnect request is on the wire both ends report a terminal event within 22 s + one step per retry; nothing after it (C08 automaton)",
         json!({"d": d, "queued_data": "0, 1, 3, 8 packets of mixed modes incl. multi-fragment", "who": "client or server, disconnect() or disconnect_now()", "blackouts": "to server / to client / both, permanent, from every round of the window"})) }
@@ -574,9 +574,9 @@ pub fn survive_scenarios(quick: bool, c11: bool) -> Vec<Scenario> {
             scs.push(sc(&format!("C11.survive-one-15s-pause.{}", name), &cfg, script.clone(), env15, 1, EO_SURVIVE_C11));
             // single frame faults and short pauses, then a long idle period
             let mut envf = env.clone(); envf.fates = DF_BASIC; envf.deltas = &[100, 0, 2000]; envf.dev_rounds = if quick { 6 } else { 9 }; envf.max_rounds = 700;
-            scs.push(sc(&format!("C11.survive-then-idle.{}", name), &cfg, script.clone(), envf, if quick { 2 } else { 3 }, EO_SURVIVE_C11));
+            scs.push(sc(&format!("C11.survive-then-idle.{}", name), &cfg, script.clone(), envf, 3, EO_SURVIVE_C11));
         }
-        scs.push(sc(&format!("{}.survive.{}", if c11 { "C11" } else { "C02" }, name), &cfg, script, env, if quick { 2 } else { 3 }, if c11 { EO_SURVIVE_C11 } else { EO_SURVIVE_C02 }));
+        scs.push(sc(&format!("{}.survive.{}", if c11 { "C11" } else { "C02" }, name), &cfg, script, env, 3, if c11 { EO_SURVIVE_C11 } else { EO_SURVIVE_C02 }));
     }
     scs.into_iter().map(ew_scenario).collect()
 }
